@@ -62,9 +62,25 @@ def _work(args):
   return out
 
 
+def model_check_timers(run, tier):
+  """TLC on the timer / canceller protocol (Timers.tla, the locked variant the code now implements)"""
+  for timers, times in ([('{"t1", "t2"}', 2)] if tier == "quick" else [('{"t1", "t2"}', 3), ('{"t1", "t2", "t3"}', 2)]):
+    cfg = ("SPECIFICATION FairSpec\nCONSTANTS Timers = %s\nTimes = %d\nVariant = \"locked\"\nINVARIANT NoPostAfterCancelReturned\n"
+           "INVARIANT NoDeadlock\nPROPERTY Terminates\nCHECK_DEADLOCK FALSE\n" % (timers, times))
+    r = tlc.run("Timers.tla", cfg, workers=4, timeout=3000)
+    tlc.need_ok(r, "Timers")
+    if r.violated:
+      raise common.MachineryError("Timers.tla (locked variant) violates %s" % r.violated)
+    run.add(tlc_runs=["Timers %s x %d posts, locked: %d distinct states; NoPostAfterCancelReturned, NoDeadlock, Terminates hold" % (
+      timers, times, r.distinct)])
+    run.add(states=r.distinct, transitions=r.generated)
+
+
 def check(prop):
   def run_check(tier):
     run = common.Run(prop, tier, "model_checking")
+    if prop in ("C11", "C12"):
+      model_check_timers(run, tier)
     run.assumptions += ASSUME_B + ["virtual integer time with maximal progress (time advances only when no thread can run); horizon %d" % H,
                                    "cancel/stop calls come from one driver thread (or from the object's own handler)"]
     n = 1200 if tier == "quick" else 20000
